@@ -210,6 +210,23 @@ pub fn guard_f<T>(what: &str, f: impl FnOnce() -> T) -> Result<T, Failure> {
 	})
 }
 
+static T0: std::sync::OnceLock<Instant> = std::sync::OnceLock::new();
+static GRACE_UNTIL_MS: AtomicU64 = AtomicU64::new(0);
+
+fn since_t0_ms() -> u64 {
+	T0.get_or_init(Instant::now).elapsed().as_millis() as u64
+}
+
+/// A check that knowingly runs ONE very expensive case (an input beyond 4 GiB) asks the watchdog
+/// for patience: stalls are not reported during the next `secs` seconds.
+pub fn grace(secs: u64) {
+	GRACE_UNTIL_MS.fetch_max(since_t0_ms() + secs * 1000, Ordering::SeqCst);
+}
+
+pub fn grace_end() {
+	GRACE_UNTIL_MS.store(0, Ordering::SeqCst);
+}
+
 pub fn truncate(s: &str, n: usize) -> String {
 	if s.len() <= n {
 		s.to_string()
@@ -638,6 +655,9 @@ pub fn run<P: Prop>(tier: Tier, seed: u64) -> i32 {
 					let now = start.elapsed().as_millis() as u64;
 					for (i, hb) in shared.heartbeat.iter().enumerate() {
 						let last = hb.load(Ordering::Relaxed);
+						if since_t0_ms() < GRACE_UNTIL_MS.load(Ordering::SeqCst) {
+							continue;
+						}
 						if last != 0 && last != u64::MAX && now.saturating_sub(last) > hang_limit.as_millis() as u64 {
 							if shared.shrinking[i].load(Ordering::SeqCst) {
 								// a failure is already in hand; shrinking is taking too long: report what we have
@@ -777,9 +797,16 @@ pub fn run<P: Prop>(tier: Tier, seed: u64) -> i32 {
 								TestError::Fail(_, case) => {
 									// re-judge the minimal case to get its message
 									let mut cx = Ctx::default();
-									let f = match judge::<P>(&case, &mut cx, &known) {
-										Verdict::Fail(f) => f,
-										_ => Failure::new("unstable", "minimal case no longer fails (flaky oracle?)"),
+									let (case, f) = match judge::<P>(&case, &mut cx, &known) {
+										Verdict::Fail(f) => (case, f),
+										_ => {
+											// the verdict depends on what ran before on this thread: report the last
+											// case that was SEEN failing, with its own message
+											match shared.best.lock().ok().and_then(|b| b.clone()) {
+												Some((c, f)) => (c, Failure::new(f.sig.clone(), format!("{} [observed in sequence; the same case judged again on its own passes, so the outcome depends on calls made earlier on this thread - state carried between calls on different values]", f.msg))),
+												None => (case, Failure::new("unstable", "minimal case no longer fails (flaky oracle?)")),
+											}
+										}
 									};
 									let mut v = shared.violation.lock().unwrap();
 									if v.is_none() {
